@@ -1,6 +1,6 @@
 (* C16 — bundled converter obeys round-trip laws for any mapped dataclass.
    Only statements, [exact], and Print Assumptions live here. *)
-From PG Require Import Lib.Strs Model.Converter Model.Serializer Proofs.Converter Proofs.Serializer.
+From PG Require Import Lib.Strs Model.Converter Model.Serializer Proofs.Converter Proofs.Serializer Proofs.SerializerCyclic.
 
 (* Encode then decode.  For every class table whose classes have bijective key maps and supported
    field types (ct_ok), every annotation built from them (ty_ok) and every instance conforming to it
@@ -139,13 +139,22 @@ Theorem C16_serializer_cyclic_example : serializer_ok (serialize_top h_cyc 0) /\
 Proof. exact h_cyc_ok. Qed.
 Print Assumptions C16_serializer_cyclic_example.
 
-(* NOT PROVED (statement kept visible): the serialiser on the cyclic heaps that work.
-     Theorem C16_serializer_cyclic : forall h, containers_ranked h = true -> no_sdata h = true -> scalars_ok h = true ->
-       forall r, serializer_ok (ser (budget h) h true [] r).
-   where containers_ranked = every list / dict stores only smaller indices while SFwd objects may point
-   anywhere (arbitrary cycles through dataclass attributes).  Missing: a lexicographic termination
-   measure (number of SFwd objects not in [visited], then the index) and a quadratic budget (a chain of
-   up to |h| containers may sit between two dataclass visits) instead of fuel_for's linear one. *)
+(* The serialiser on the CYCLIC heaps that work.  Heaps whose dataclass instances are forward-reference
+   ones (attributes may point anywhere: self reference, a/b pair, rings, back pointers — arbitrary
+   cycles through dataclass attributes), whose lists / dicts store only smaller indices (no cycle made
+   of containers alone) and without cattrs-followed dataclasses (those are F16a): from every root the
+   serialiser terminates within the model's budget, with JSON that has no null-valued key.
+   (lexicographic measure: dataclass objects not yet in the visited set, then the index) *)
+Theorem C16_serializer_cyclic : forall h, container_ranked h = true -> scalars_ok h = true ->
+  forall r, serializer_ok (serialize_top h r).
+Proof. exact serializer_cyclic. Qed.
+Print Assumptions C16_serializer_cyclic.
+
+Theorem C16_serializer_cyclic_nonvacuous :
+  container_ranked h_cyc2 = true /\ scalars_ok h_cyc2 = true /\ ranked h_cyc2 = false /\
+  serialize_top h_cyc2 2 = SOk (JObj [([112], JObj []); ([105], JObj []); ([107], JArr [JObj [([118], JInt 1)]])]).
+Proof. exact h_cyc2_in_class. Qed.
+Print Assumptions C16_serializer_cyclic_nonvacuous.
 
 (* F16d (fixed): the old witness — a dict holding a forward-reference dataclass that holds another
    instance — now serialises to plain JSON without null-valued keys. *)
